@@ -834,11 +834,20 @@ func c13ReuseRun(o *vh.Out, inAny any) {
 			before = append(before, reused...)
 			after = append(after, e.out...)
 		case 1: // LineWrapper.WrapParagraph
+			// the reused wrapper is also given one reused RunIterator OBJECT whose content is replaced for
+			// every paragraph (a user-supplied iterator), so that state keyed on the iterator's identity shows
+			reusedIter := &c13Iter{}
+			var reusedWrapper *shaping.LineWrapper
 			wrap := func(w *shaping.LineWrapper, c c13Call) ([]shaping.Line, int) {
 				t := []rune(c.Text)
 				cfg := c13Config(c, fm)
 				runs := c13ShapeRuns(t, cfg.Direction, fm)
-				return w.WrapParagraph(cfg, c.Width, t, shaping.NewSliceIterator(runs))
+				var it shaping.RunIterator = shaping.NewSliceIterator(runs)
+				if w == reusedWrapper {
+					reusedIter.runs, reusedIter.idx, reusedIter.saved = runs, 0, 0
+					it = reusedIter
+				}
+				return w.WrapParagraph(cfg, c.Width, t, it)
 			}
 			encode := func(ls []shaping.Line, tr int) []int64 {
 				e := enc()
@@ -849,6 +858,7 @@ func c13ReuseRun(o *vh.Out, inAny any) {
 				return e.out
 			}
 			var w, other shaping.LineWrapper
+			reusedWrapper = &w
 			for _, h := range in.History {
 				ls, tr := wrap(&w, h)
 				before = append(before, encode(ls, tr)...)
@@ -1033,3 +1043,27 @@ func init() {
 		run: c13ReuseRun,
 	}
 }
+
+// c13Iter is a user-side RunIterator over a slice, reusable across paragraphs.
+type c13Iter struct {
+	runs       []shaping.Output
+	idx, saved int
+}
+
+func (it *c13Iter) Next() (int, shaping.Output, bool) {
+	if it.idx >= len(it.runs) {
+		return it.idx, shaping.Output{}, false
+	}
+	i := it.idx
+	it.idx++
+	return i, it.runs[i], true
+}
+
+func (it *c13Iter) Peek() (int, shaping.Output, bool) {
+	if it.idx >= len(it.runs) {
+		return it.idx, shaping.Output{}, false
+	}
+	return it.idx, it.runs[it.idx], true
+}
+func (it *c13Iter) Save()    { it.saved = it.idx }
+func (it *c13Iter) Restore() { it.idx = it.saved }
